@@ -120,7 +120,9 @@ BuildVft(reg, ptr, p, vis, src, pend, own) ==   \* own = [has, funcs]
       bvf == bl.st = "ok" /\ bl.res.vft.has
       ptrTy == RCPtr(RRaw(VftPath(p)))
       R(st, vft, region, why) == [st |-> st, vft |-> vft, region |-> region, ins |-> ins, why |-> why]
-  IN IF bl.st = "fail" THEN R("fail", NoVftRes, NoRegion, bl.why)
+      collides == own.has /\ Has(reg, VftPath(p)) /\ reg[VftPath(p)] # ins[1][2]
+  IN IF CHECKDUP /\ collides THEN [st |-> "fail", vft |-> NoVftRes, region |-> NoRegion, ins |-> <<>>, why |-> "vftable-name-collision"]
+     ELSE IF bl.st = "fail" THEN R("fail", NoVftRes, NoRegion, bl.why)
      ELSE IF own.has THEN
        IF bvf THEN
          LET bf == bl.res.vft.funcs
